@@ -648,7 +648,7 @@ def expectation(s, v, pres, fields=None, ch=None):
             exp[fk] = ('any',)   # collection contents are summarised by one representative element (consumption is still checked)
         elif pres.get(f['name'], True):
             borrow = None
-            if f['b'] and f['ty'].startswith('Cow<'):
+            if f['b'] and re.match(r'^(::)?(\w+::)*Cow<', f['ty']):     # however the path to Cow is spelled
                 borrow = 'Cow#0'
             if f.get('nilable') and f['codec'] and ch.get('self*.' + fk) == 'None':
                 exp[fk] = ('none',)     # written as an explicit null, read back as None
@@ -745,7 +745,8 @@ def all_rejected(prog, s, events, from_state, leaf=None):
     return (not ok_), classes
 
 
-def c09_errors(ctx, schemas=None, prog=None):
+def c09_errors(ctx, schemas=None, prog=None, collect=None):
+    """collect: optional dict, filled with probe key -> sorted error classes (C20 compares them between configurations)"""
     d = corpus()
     prog = prog or load.program(CONFIG)
     n = 0
@@ -783,6 +784,8 @@ def c09_errors(ctx, schemas=None, prog=None):
                     n += 1
                     rej, classes = all_rejected(prog, s, stream_, o.st)
                     key = '%s|%s|%s-tag@%d' % (label, vk, what, tp)
+                    if collect is not None:
+                        collect[key] = ('rejected' if rej else 'accepted', tuple(sorted(set(classes))))
                     if rej:
                         ctx.ok('S-ERR.tag', key)
                     else:
@@ -799,6 +802,8 @@ def c09_errors(ctx, schemas=None, prog=None):
                     st2 = ev[:pos] + [('ITEM', 'INT', 'u32', Int.const(bad))] + ev[pos + 1:]
                     n += 1
                     rej, classes = all_rejected(prog, s, st2, o.st)
+                    if collect is not None:
+                        collect['%s|unknown-variant' % label] = ('rejected' if rej else 'accepted', tuple(sorted(set(classes))))
                     if rej and 'UnknownVariant' in classes:
                         ctx.ok('S-ERR.variant', label)
                     else:
